@@ -423,3 +423,65 @@ def ctl_join_threshold(ctx):
 
     return _ctl_paths(ctx, "join_threshold", COND, "WorkflowConductor.get_inbound_criteria_status",
                       pred, repl, [P.rule_P7], "join threshold > instead of >=")
+
+
+# ---------------------------------------------------------------------- E7 / U1 / S2 / S3
+MODELS = "orquesta/specs/native/v1/models.py"
+
+
+def ctl_unguarded_staged_deref(ctx):
+    """_request_task_rerun pops 'completed' from the staged entry without testing it."""
+    import ast
+    from sa import optional as O
+
+    def pred(n):
+        return isinstance(n, ast.If) and isinstance(n.test, ast.Name) and n.test.id == "staged_task"
+
+    return _edit_control(ctx, "unguarded_staged_deref", COND, "WorkflowConductor._request_task_rerun",
+                         pred, lambda n: n.body, [O.rule_E7],
+                         what="staged entry dereferenced without the presence test")
+
+
+def ctl_unguarded_task_name(ctx):
+    import ast
+    from sa import optional as O
+
+    def pred(n):
+        return isinstance(n, ast.If) and ast.unparse(n.test) == "task_name not in self"
+
+    return _edit_control(ctx, "unguarded_task_name", MODELS, "TaskMappingSpec.detect_unreachable_tasks",
+                         pred, lambda n: None, [O.rule_U1],
+                         what="undefined task names reach is_split_task/in_cycle")
+
+
+def ctl_drop_detector(ctx):
+    import ast
+    from sa import speccov as S
+
+    def pred(n):
+        return isinstance(n, ast.Expr) and "detect_undefined_tasks" in ast.unparse(n)
+
+    return _edit_control(ctx, "drop_detector", MODELS, "TaskMappingSpec.inspect_semantics", pred,
+                         lambda n: None, [S.rule_S2], what="undefined-task detector not run")
+
+
+def ctl_untracked_property(ctx):
+    import ast
+    from sa import speccov as S
+
+    def editor(tree):
+        c = M.find_def(tree, "TaskSpec")
+        for s_ in c.body:
+            if isinstance(s_, ast.Assign) and isinstance(s_.targets[0], ast.Name) and \
+                    s_.targets[0].id == "_context_evaluation_sequence":
+                s_.value.elts = [e for e in s_.value.elts if e.value != "input"]
+                return
+        raise M.EditFailed("no _context_evaluation_sequence in TaskSpec")
+
+    try:
+        p2 = M.apply(ctx.prog, MODELS, editor)
+    except M.EditFailed as e:
+        return ("untracked_property", True, "skipped: %s" % e)
+    base = {f.key for f in S.rule_S3(ctx).findings}
+    new = [f for f in S.rule_S3(ctx.derive(p2)).findings if f.key not in base]
+    return ("untracked_property", bool(new), "TaskSpec.input untracked: %d new finding(s)" % len(new))
